@@ -8,6 +8,8 @@ HARNESSES = [
     ('std_is_ascii_alphanumeric', True, 'all 256 bytes', 'u8::is_ascii_alphanumeric (prelude/hex.rs contract)', ['C09', 'C10', 'C02']),
     ('repo_u8_to_upper_hex', True, 'all 256 bytes', 'compiled canonical::u8_to_upper_hex', ['C09', 'C10']),
     ('repo_is_rfc3986_unreserved', True, 'all 256 bytes', 'compiled canonical::is_rfc3986_unreserved', ['C09', 'C10']),
+    ('std_u8_ascii_family', True, 'all 256 bytes', 'u8::to_ascii_lowercase/uppercase, is_ascii_digit/hexdigit/uppercase/lowercase/alphabetic, is_ascii (prelude/std_extra2.rs contracts)', ['C08']),
+    ('std_eq_ignore_ascii_case_bounded', False, 'slices of length <= 3', '<[u8]>::eq_ignore_ascii_case (prelude/std_extra2.rs contract)', ['C08']),
     ('std_is_ascii_whitespace', True, 'all 256 bytes', 'u8::is_ascii_whitespace (contracts/trim.rs contract)', ['C11', 'C12', 'C19', 'C08']),
     ('trim_ascii_bounded', False, 'inputs of length <= 4', 'compiled canonical::trim_ascii (fidelity of the slice-pattern desugaring verified in unit trim)', ['C19', 'C12', 'C08', 'C13']),
     ('subtle_ct_eq_bounded', False, 'slices of length <= 3', '<[u8] as subtle::ConstantTimeEq>::ct_eq (prelude/deps_auth.rs contract)', ['C01', 'C02']),
